@@ -8,8 +8,7 @@ pub mod sha1 {
     use crate::shims::bytes::BytesArg;
     #[verifier::external_body] pub struct Sha1 { s: u8 }
     impl View for Sha1 { type V = Seq<u8>; uninterp spec fn view(&self) -> Seq<u8>; }
-    #[verifier::external_body] pub struct Output20 { s: u8 }
-    impl View for Output20 { type V = Seq<u8>; uninterp spec fn view(&self) -> Seq<u8>; }
+    pub type Output20 = [u8; 20];
     impl Sha1 {
         #[verifier::external_body]
         pub fn new() -> (r: Sha1) ensures r@ == Seq::<u8>::empty() { unimplemented!() }
@@ -17,8 +16,9 @@ pub mod sha1 {
         pub fn update<D: BytesArg>(&mut self, data: D) ensures final(self)@ == old(self)@ + data.bytes() { unimplemented!() }
         #[verifier::external_body]
         pub fn finalize(self) -> (r: Output20) ensures r@ == sha1_raw(self@) { unimplemented!() }
+        #[verifier::external_body]
+        pub fn digest<D: BytesArg>(data: D) -> (r: Output20) ensures r@ == sha1_raw(data.bytes()) { unimplemented!() }
     }
-    impl crate::shims::hex::HexArg for Output20 { open spec fn hex_bytes(&self) -> Seq<u8> { self@ } }
 }
 pub mod sha2 {
     use vstd::prelude::*;
@@ -26,8 +26,7 @@ pub mod sha2 {
     use crate::shims::bytes::BytesArg;
     #[verifier::external_body] pub struct Sha256 { s: u8 }
     impl View for Sha256 { type V = Seq<u8>; uninterp spec fn view(&self) -> Seq<u8>; }
-    #[verifier::external_body] pub struct Output32 { s: u8 }
-    impl View for Output32 { type V = Seq<u8>; uninterp spec fn view(&self) -> Seq<u8>; }
+    pub type Output32 = [u8; 32];
     impl Sha256 {
         #[verifier::external_body]
         pub fn new() -> (r: Sha256) ensures r@ == Seq::<u8>::empty() { unimplemented!() }
@@ -35,13 +34,18 @@ pub mod sha2 {
         pub fn update<D: BytesArg>(&mut self, data: D) ensures final(self)@ == old(self)@ + data.bytes() { unimplemented!() }
         #[verifier::external_body]
         pub fn finalize(self) -> (r: Output32) ensures r@ == sha256_raw(self@) { unimplemented!() }
+        /// Digest::digest(data) == new + update + finalize
+        #[verifier::external_body]
+        pub fn digest<D: BytesArg>(data: D) -> (r: Output32) ensures r@ == sha256_raw(data.bytes()) { unimplemented!() }
     }
-    impl crate::shims::hex::HexArg for Output32 { open spec fn hex_bytes(&self) -> Seq<u8> { self@ } }
 }
 pub mod hex {
     use vstd::prelude::*;
     use crate::spec::*;
     pub trait HexArg { spec fn hex_bytes(&self) -> Seq<u8>; }
+    impl<const N: usize> HexArg for [u8; N] { open spec fn hex_bytes(&self) -> Seq<u8> { self@ } }
+    impl<'a> HexArg for &'a [u8] { open spec fn hex_bytes(&self) -> Seq<u8> { self@ } }
+    impl<'a> HexArg for &'a Vec<u8> { open spec fn hex_bytes(&self) -> Seq<u8> { self@ } }
     #[verifier::external_body]
     pub fn encode<T: HexArg>(t: T) -> (r: String) ensures r@ == hex_of(t.hex_bytes()) { unimplemented!() }
     #[verifier::external_body]
